@@ -288,9 +288,9 @@ def parse_assumptions(transcript):
             cur = []
             blocks.append(cur)
         elif cur is not None:
-            m = re.match(r'^([A-Za-z_][\w.\']*)\s*:', line)
+            m = re.match(r'^([A-Za-z_][\w.\']*)\s*(:|$)', line)
             if m:
-                cur.append(m.group(1))
+                cur.append(m.group(1))      # (the type may be wrapped onto the next lines)
             elif line and not line.startswith(' '):
                 cur = None
     return blocks
@@ -342,12 +342,7 @@ def proof_leg(driver, tier):
         if rc:
             res['failure'] = failing_item(log) or {'file': '?', 'statement': '?',
                                                    'error': log[-1500:]}
-            # count theorems whose file compiled
-            for vf in driver.THEOREM_FILES:
-                if os.path.exists(os.path.join(COQ, vf[:-2] + '.vo')) and \
-                        os.path.getmtime(os.path.join(COQ, vf[:-2] + '.vo')) >= \
-                        os.path.getmtime(os.path.join(COQ, vf)):
-                    res['discharged'] += len(theorem_names(vf))
+            res['discharged'] = 0      # conservative: nothing counts as discharged when the build fails
             return res
         # transcript of the property files themselves: Print Assumptions under every theorem
         allowed = set(getattr(driver, 'ALLOWED_AXIOMS', []))
